@@ -261,7 +261,7 @@ PLANS = {
     ),
     'C18': dict(
         oracle='C18', level='exploration',
-        profiles=[('events', 7)], curated=[], configs=[1, 4, 5],
+        profiles=[('events', 5), ('events_smi', 3)], curated=[], configs=[1, 4, 5],
         cp=dict(max_ops=25, kinds=['P', 'P', 'P', 'P', 'Q', 'X']),
         examples=(300, 2500), floor=(100, 1000),
         rule='Generated machines (depth 1-2) mixing, in one state and across submachine levels, rows triggered by the exact event type, '
